@@ -205,9 +205,11 @@ PLAN = {
     "C18": dict(
         title="The random generator stays in range and shuffling is a safe permutation",
         level="proof",
-        verus=[],
+        verus=["C18_shuffle.rs"],
         kani=True,
-        undecided_clauses=["shuffle for lengths above 4 and Tensor::random for shapes above 2 entries (bounded; the element contract of generate is unbounded)"],
+        undecided_clauses=["Tensor::random for shapes above 2 entries (bounded; the element contract of generate is unbounded)",
+                           "shuffle is proved for every length and every generated number (Verus, unit random.shuffle) under std's specification of `swap`; uniformity of the permutation is not a property here",
+                           "the generate contract inside shuffle's Verus unit is `any f32` (nothing about generate is needed); the float->usize cast is opaque (any value)"],
     ),
 }
 
@@ -430,13 +432,14 @@ MANIFEST_TEXT = {
     ),
     "C18": dict(
         category="proof",
-        technique="Kani function contract on Generator::generate (proof_for_contract, all states), stub_verified reuse in shuffle",
+        technique="Kani function contract on Generator::generate (proof_for_contract, all states), stub_verified reuse in shuffle; Verus contract on the whole shuffle (all lengths)",
         design_ref="DESIGN.md §5 C18",
         text="Complete over the state space: a Kani function contract on the real Generator::generate is proved for all 2^31-1 states "
              "and all finite min<=max (result in [min,max], state stays valid, coefficients unchanged, no overflow), create() for all 2^64 "
              "seeds; shuffle is checked modularly against that verified contract (every value the contract allows) and non-modularly, "
-             "for lengths up to the stated bound (bounded, labelled as such).",
-        note="CBMC's bit-precise float model; shuffle bounded in length; Tensor::random on 2-entry shapes of every rank, modular on generate's "
+             "for lengths up to the stated bound (bounded, labelled as such). Verus proves the whole shuffle (rewrites R28/R45/R46) for every length and every value "
+             "generate may return: no index leaves the vector, the length is kept and the result has the same multiset of elements as the argument.",
+        note="CBMC's bit-precise float model; Kani's shuffle harnesses bounded in length (the Verus unit is not); Tensor::random on 2-entry shapes of every rank, modular on generate's "
              "contract, clock replaced by a symbolic sub-second value.",
     ),
 }
